@@ -7,8 +7,9 @@
       this file             the tokens parse to the literals, [coerce_value] and the storage
                             layer's normalisation give back the stored values, statement by statement.
 
-    and the refutations: negative numbers, special floats, SMALLINT values, whole NUMERIC values,
-    CHAR values with a non-blank character beyond the first n bytes, and strings with backslash / newline / comment-like lines.
+    and the refutations that remain: negative numbers and strings with backslash / newline /
+    comment-like lines (special floats, SMALLINT, whole NUMERIC and non-ASCII CHAR values were
+    repaired in the code: their former counter-examples are positive theorems now).
 
     Rust's float formatting / parsing are the fields of [float_ops]; what is assumed about them is
     the record [float_text_ok] below (a hypothesis of the theorems, never an axiom). *)
@@ -1138,48 +1139,48 @@ Theorem negative_number_refuted_thm fl itx :
              /\ db = one_table [col "A" TInteger true] [[VInteger (-5)]].
 Proof. eexists. split; [|reflexivity]. vm_compute. reflexivity. Qed.
 
-(** ** NaN and the infinities are written as quoted strings, which no float column accepts *)
-Theorem special_float_rejected_thm fl s : coerce_value fl (VVarchar s) TDouble = OErr
-  /\ coerce_value fl (VVarchar s) TReal = OErr /\ (forall p, coerce_value fl (VVarchar s) (TFloat p) = OErr).
-Proof. repeat split. Qed.
+(** ** classes repaired in the code (fixes/C19-coerce-dump-literals, C19-char-length-in-characters):
+    the former counter-examples are now inside the vocabulary and reload as themselves *)
 
-Theorem special_float_refuted_thm fl itx :
-  exists db, load_sql_dump fl (dump_text fl itx (lit "x") db) = OErr
-             /\ db = one_table [col "A" TDouble true] [[VDouble 9221120237041090560]; [VDouble 9218868437227405312]].
-Proof. eexists. split; [|reflexivity]. vm_compute. reflexivity. Qed.
-
-(** ** SMALLINT: an integer literal is an Integer, and there is no Integer -> Smallint coercion *)
-Theorem smallint_rejected_thm fl i : coerce_value fl (VInteger i) TSmallint = OErr.
-Proof. reflexivity. Qed.
-
-Theorem smallint_refuted_thm fl itx :
-  exists db, load_sql_dump fl (dump_text fl itx (lit "x") db) = OErr
-             /\ db = one_table [col "A" TSmallint true] [[VSmallint 5]].
-Proof. eexists. split; [|reflexivity]. vm_compute. reflexivity. Qed.
-
-(** ** NUMERIC: a whole value prints without a fraction, reads as an Integer, and there is no
-    Integer -> Numeric coercion *)
-Theorem numeric_whole_rejected_thm fl b i p s rest :
-  parse_i64 (show_f64 fl b) = Some i ->
-  obind (parse_value fl (TNum (show_f64 fl b) :: rest)) (fun '(pv, _) => coerce_value fl pv (TNumeric p s)) = OErr.
-Proof. intros P. cbn [parse_value]. rewrite P. reflexivity. Qed.
-
-(** ** CHAR(n) with a non-ASCII value.  The storage layer now pads and cuts by CHARACTERS (repair
-    C19-char-length-in-characters); [coerce_value] still measures the literal in BYTES and cuts it
-    on a character boundary.  A value whose overflow beyond [n] bytes is only padding comes back
-    (the former counter-example does): *)
-Theorem char_padded_non_ascii_roundtrip_thm fl itx :
-  let db := one_table [col "A" (TChar 4) true] [[VCharacter [233; 32; 32; 32]]] in
+(** the quoted spellings of the special floats are accepted by the float columns: the canonical
+    NaN and both infinities come back bit for bit *)
+Theorem special_float_roundtrip_thm fl itx :
+  let db := one_table [col "A" TDouble true; col "B" TReal true]
+              [[VDouble 9221120237041090560; VReal 2143289344]; [VDouble 9218868437227405312; VReal 4286578688];
+               [VDouble 18442240474082181120; VReal 2139095040]] in
   db_ok db = true /\ load_sql_dump fl (dump_text fl itx (lit "x") db) = OOk db.
 Proof. split; vm_compute; reflexivity. Qed.
 
-(** ... but a value with a real character beyond the first [n] bytes still reloads as a different
-    string (here ['a€ '] in CHAR(3) comes back as ['a  ']) *)
-Theorem char_non_ascii_refuted_thm fl itx :
+(** a NaN with another payload or sign is written as 'NaN' too and comes back as the canonical NaN
+    (the same value for SqlValue's equality; only the payload bits differ) *)
+Theorem nan_payload_canonicalised_thm fl itx :
   exists db db', load_sql_dump fl (dump_text fl itx (lit "x") db) = OOk db'
-                 /\ db = one_table [col "A" (TChar 3) true] [[VCharacter [97; 8364; 32]]]
-                 /\ db' = one_table [col "A" (TChar 3) true] [[VCharacter [97; 32; 32]]].
+                 /\ db = one_table [col "A" TDouble true] [[VDouble 9221120237041090561]; [VDouble 18444492273895866368]]
+                 /\ db' = one_table [col "A" TDouble true] [[VDouble 9221120237041090560]; [VDouble 9221120237041090560]].
 Proof. eexists _, _. split; [|split; reflexivity]. vm_compute. reflexivity. Qed.
+
+(** SMALLINT: the Integer literal is narrowed by the new (Integer, Smallint) coercion *)
+Theorem smallint_roundtrip_thm fl itx :
+  let db := one_table [col "A" TSmallint true] [[VSmallint 5]; [VSmallint 32767]; [VSmallint 0]] in
+  db_ok db = true /\ load_sql_dump fl (dump_text fl itx (lit "x") db) = OOk db.
+Proof. split; vm_compute; reflexivity. Qed.
+
+(** NUMERIC: a whole value prints without a fraction, reads as an Integer and is converted back *)
+Theorem numeric_whole_roundtrip_thm fl (FT : float_text_ok fl) b i p s rest :
+  finite_pos 64 b = true -> parse_i64 (show_f64 fl b) = Some i ->
+  obind (parse_value fl (TNum (show_f64 fl b) :: rest)) (fun '(pv, _) => coerce_value fl pv (TNumeric p s)) = OOk (VNumeric b).
+Proof.
+  intros F P. cbn [parse_value]. rewrite P. cbn [obind coerce_value].
+  pose proof (ft_int64 fl FT (show_f64 fl b) i (parse_i64_digits _ _ (ft_shape64 fl FT b F) P) P) as E.
+  rewrite (ft_rt64 fl FT b F) in E. inversion E. reflexivity.
+Qed.
+
+(** CHAR(n) counts characters on both sides now: any value of exactly n characters comes back *)
+Theorem char_non_ascii_roundtrip_thm fl itx :
+  let db := one_table [col "A" (TChar 3) true; col "B" (TChar 4) true]
+              [[VCharacter [97; 8364; 32]; VCharacter [233; 32; 32; 32]]; [VCharacter [128512; 32; 32]; VCharacter [233; 233; 233; 233]]] in
+  db_ok db = true /\ load_sql_dump fl (dump_text fl itx (lit "x") db) = OOk db.
+Proof. split; vm_compute; reflexivity. Qed.
 
 (** ** strings that break the splitter, seen from the loader *)
 
@@ -1228,5 +1229,5 @@ Theorem load_value_thm fl itx (FT : float_text_ok fl) ty nullable v r ts rest :
 Proof.
   intros V Hr H. split; [apply (lexes_value fl itx FT ty nullable); assumption|].
   destruct (value_parse fl itx FT ty nullable v rest V) as (pv & P & C).
-  exists pv, (coerced ty v). repeat split; [exact P | exact C | apply (value_normalize fl ty nullable), V].
+  exists pv, (coerced ty v). repeat split; [exact P | exact C | apply (value_normalize ty nullable), V].
 Qed.
